@@ -111,6 +111,30 @@ def run(chk):
     for sub in (["S"], ["g", "V"], ["S", "g", "V", "T3", "T8"], ["V3", "T15", "T35"], ["ph", "S", "V35"]):
         for present in (pids, [21, 1, -1, 2, -2, 3, -3]):
             run_proj(f"C46.evol{sub}[present={len(present)}]", present, flavors.evol_to_flavor(sub), True)
+    # several blocks in one call: every block is projected on its own data only (same shapes, fewer flavours in the later blocks, an empty block in between)
+    for lab_sel, reprs_m in (("pid[21, 1, -1, 4]", flavors.pid_to_flavor([21, 1, -1, 4])), ("evol[S, g, V, T15]", flavors.evol_to_flavor(["S", "g", "V", "T15"])), ("pid[all]", all_rows)):
+        presents = (pids, [21, 1, -1, 2, -2, 3], [21, 4, -4], [2, -2])
+        blks, datas = [], []
+        for k, present in enumerate(presents):
+            data = symmat(f"m{k}_", NPT, len(present))
+            blks.append(dict(pids=np.array(present), data=data))
+            datas.append(data.copy())
+        blks.insert(2, dict(pids=np.array([21]), data=np.zeros((0, 1), dtype=object)))
+        tagm = f"C46.several_blocks.{lab_sel}"
+        try:
+            res = flavors.project(blks, reprs_m)
+        except Exception as e:
+            chk.fail(f"{tagm}.no_exception", f"{type(e).__name__}: {e}", fn=fn, replay=rp)
+            continue
+        outs = [r for i, r in enumerate(res) if i != 2]
+        for k, (present, before, out) in enumerate(zip(presents, datas, outs)):
+            full = full_of(present, before)
+            want = vnp.zeros((14, NPT))
+            for e in reprs_m:
+                ee = sum((x * x for x in e), Q(0))
+                want = want + np.outer(e, e @ full) / ee
+            chk.eq_block(f"{tagm}.block{k}.projection_of_its_own_data", out["data"].T, want, fn=fn, replay=rp, goal="block k of project([b0, b1, ...]) == projection of b_k alone")
+        chk.ground(f"{tagm}.empty_block_kept", len(res) == len(blks) and len(res[2]["data"]) == 0, fn=fn, replay=rp, goal="an empty block stays in place and empty")
     # everything orthogonal to the selection is removed: complement evolution rows
     sel = ["S", "g", "T3", "V8"]
     blk, data = block(pids)
